@@ -3569,14 +3569,15 @@ class SetInstance(object):
                 for undo_func in reversed(undo_funcs): undo_func()
                 raise
         if reverse.is_collection:
-            # for one-to-many the items were already taken out of setdata (and counted) by reverse_remove()
+            # for one-to-many the items were already taken out of setdata, counted and recorded
+            # as removed (or dropped from the pending additions) by reverse_remove()
             if setdata.count is not None: setdata.count -= len(items)
-        setdata -= items
-        added = setdata.added
-        removed = setdata.removed
-        if added: (items, setdata.added) = (items - added, added - items)
-        if removed: removed |= items
-        else: setdata.removed = items  # removed may be None
+            setdata -= items
+            added = setdata.added
+            removed = setdata.removed
+            if added: (items, setdata.added) = (items - added, added - items)
+            if removed: removed |= items
+            else: setdata.removed = items  # removed may be None
 
         cache.modified_collections[attr].add(obj)
         cache.modified = True
